@@ -1,14 +1,839 @@
-//! Suite `serde` (stub: replaced by the owner of the suite).
+//! Suite `serde` (C17): the public wire data types of the `varlink` crate through the
+//! REAL `serde_json::{to_string, to_vec, to_value}` x `{from_str, from_slice, from_value}`.
+//!
+//! Case input:
+//!   (enc <ty> <tval> <fl>)      a typed value: serialize three ways, deserialize each encoding three ways
+//!   (dec <ty> <rawjson> <fl>)   a raw JSON tree (objects in document order, duplicate keys possible):
+//!                          printed as text by the harness, then from_str / from_slice /
+//!                          from_value(from_str::<Value>(text))
+//!   fl    = (fl (<bits> <bits'>)*)  serde_json's text layer on the floats of the case, measured by
+//!           `generate` with the real serde_json: printing f64 <bits> and parsing the text back yields
+//!           <bits'> (only the pairs that differ).  The text layer is a parameter of the model.
+//!   ty    = req | reply | info | desc | descargs | set | mapstr | mapint | mapoptstr | mapval
+//!         | mapmapstr | mapset
+//!   tval  = t | f | (i <int>) | (d <f64 bits>) | x<hex> | (j <json>) | - | (some tval)
+//!         | (l tval*) | (m (x<key> tval)*) keys sorted | (S x<key>*) sorted | (r tval*) struct members
+//!
+//! Observation:
+//!   enc: (obs (encs <json> <json> <json>) <same-bytes t|f> (rt <res>{9}))   order: for encoding in
+//!        [string, vec, value] for decoder in [str, slice, value];  res = err | (ok <tval> <eq t|f>);
+//!        `(rt9 <res>)` when all nine are the same
+//!   dec: (obs <res> <res> <res>)   order str, slice, value;  res = err | (ok <tval> <json re-encoded>)
+use crate::rng::Rng;
 use crate::sx::{self, Sx};
 use crate::{Case, Ctx, Suite};
+use serde::de::DeserializeOwned;
+use serde::Serialize;
+use serde_json::Value;
+use std::borrow::Cow;
+use std::collections::HashMap;
+use varlink::{
+    GetInterfaceDescriptionArgs, GetInterfaceDescriptionReply, Reply, Request, ServiceInfo, StringHashMap,
+    StringHashSet,
+};
 
 pub struct SerdeSuite;
 
-impl Suite for SerdeSuite {
-    fn generate(&self, _ctx: &Ctx) -> Vec<Case> {
-        Vec::new()
+// ---------------------------------------------------------------------------
+// typed values <-> Sx
+
+pub trait TV: Sized {
+    fn from_sx(s: &Sx) -> Option<Self>;
+    fn to_sx(&self) -> Sx;
+}
+
+impl TV for bool {
+    fn from_sx(s: &Sx) -> Option<Self> {
+        match s.as_atom()? {
+            "t" => Some(true),
+            "f" => Some(false),
+            _ => None,
+        }
     }
-    fn run(&self, _ctx: &Ctx, _input: &Sx) -> Sx {
-        sx::atom("stub")
+    fn to_sx(&self) -> Sx {
+        sx::boolean(*self)
+    }
+}
+
+impl TV for i64 {
+    fn from_sx(s: &Sx) -> Option<Self> {
+        let l = s.as_list()?;
+        if l.len() == 2 && l[0].as_atom()? == "i" {
+            l[1].as_atom()?.parse().ok()
+        } else {
+            None
+        }
+    }
+    fn to_sx(&self) -> Sx {
+        sx::list(vec![sx::atom("i"), sx::int(*self)])
+    }
+}
+
+impl TV for String {
+    fn from_sx(s: &Sx) -> Option<Self> {
+        s.as_str()
+    }
+    fn to_sx(&self) -> Sx {
+        sx::xs(self)
+    }
+}
+
+impl TV for Value {
+    fn from_sx(s: &Sx) -> Option<Self> {
+        let l = s.as_list()?;
+        if l.len() == 2 && l[0].as_atom()? == "j" {
+            l[1].to_json()
+        } else {
+            None
+        }
+    }
+    fn to_sx(&self) -> Sx {
+        sx::list(vec![sx::atom("j"), sx::json(self)])
+    }
+}
+
+impl<T: TV> TV for Option<T> {
+    fn from_sx(s: &Sx) -> Option<Self> {
+        if s.as_atom() == Some("-") {
+            return Some(None);
+        }
+        let l = s.as_list()?;
+        if l.len() == 2 && l[0].as_atom()? == "some" {
+            T::from_sx(&l[1]).map(Some)
+        } else {
+            None
+        }
+    }
+    fn to_sx(&self) -> Sx {
+        match self {
+            None => sx::atom("-"),
+            Some(v) => sx::list(vec![sx::atom("some"), v.to_sx()]),
+        }
+    }
+}
+
+impl<T: TV> TV for Vec<T> {
+    fn from_sx(s: &Sx) -> Option<Self> {
+        let l = s.as_list()?;
+        if l.first()?.as_atom()? != "l" {
+            return None;
+        }
+        l[1..].iter().map(T::from_sx).collect()
+    }
+    fn to_sx(&self) -> Sx {
+        let mut l = vec![sx::atom("l")];
+        l.extend(self.iter().map(|x| x.to_sx()));
+        sx::list(l)
+    }
+}
+
+impl<T: TV> TV for HashMap<String, T> {
+    fn from_sx(s: &Sx) -> Option<Self> {
+        let l = s.as_list()?;
+        if l.first()?.as_atom()? != "m" {
+            return None;
+        }
+        let mut m = HashMap::new();
+        for e in &l[1..] {
+            let e = e.as_list()?;
+            m.insert(e.first()?.as_str()?, T::from_sx(e.get(1)?)?);
+        }
+        Some(m)
+    }
+    fn to_sx(&self) -> Sx {
+        let mut kv: Vec<(&String, &T)> = self.iter().collect();
+        kv.sort_by(|a, b| a.0.as_bytes().cmp(b.0.as_bytes()));
+        let mut l = vec![sx::atom("m")];
+        l.extend(kv.into_iter().map(|(k, v)| sx::list(vec![sx::xs(k), v.to_sx()])));
+        sx::list(l)
+    }
+}
+
+impl TV for StringHashSet {
+    fn from_sx(s: &Sx) -> Option<Self> {
+        let l = s.as_list()?;
+        if l.first()?.as_atom()? != "S" {
+            return None;
+        }
+        let mut m = StringHashSet::new();
+        for e in &l[1..] {
+            m.insert(e.as_str()?);
+        }
+        Some(m)
+    }
+    fn to_sx(&self) -> Sx {
+        let mut k: Vec<&String> = self.iter().collect();
+        k.sort_by(|a, b| a.as_bytes().cmp(b.as_bytes()));
+        let mut l = vec![sx::atom("S")];
+        l.extend(k.into_iter().map(|k| sx::xs(k)));
+        sx::list(l)
+    }
+}
+
+fn rec(s: &Sx, n: usize) -> Option<&[Sx]> {
+    let l = s.as_list()?;
+    if l.len() == n + 1 && l[0].as_atom()? == "r" {
+        Some(&l[1..])
+    } else {
+        None
+    }
+}
+
+fn mkrec(v: Vec<Sx>) -> Sx {
+    sx::tagged("r", v)
+}
+
+impl TV for Request<'static> {
+    fn from_sx(s: &Sx) -> Option<Self> {
+        let f = rec(s, 5)?;
+        Some(Request {
+            more: TV::from_sx(&f[0])?,
+            oneway: TV::from_sx(&f[1])?,
+            upgrade: TV::from_sx(&f[2])?,
+            method: Cow::Owned(String::from_sx(&f[3])?),
+            parameters: TV::from_sx(&f[4])?,
+        })
+    }
+    fn to_sx(&self) -> Sx {
+        mkrec(vec![
+            self.more.to_sx(),
+            self.oneway.to_sx(),
+            self.upgrade.to_sx(),
+            sx::xs(&self.method),
+            self.parameters.to_sx(),
+        ])
+    }
+}
+
+impl TV for Reply {
+    fn from_sx(s: &Sx) -> Option<Self> {
+        let f = rec(s, 3)?;
+        let e: Option<String> = TV::from_sx(&f[1])?;
+        Some(Reply { continues: TV::from_sx(&f[0])?, error: e.map(Cow::Owned), parameters: TV::from_sx(&f[2])? })
+    }
+    fn to_sx(&self) -> Sx {
+        mkrec(vec![
+            self.continues.to_sx(),
+            self.error.as_ref().map(|c| c.to_string()).to_sx(),
+            self.parameters.to_sx(),
+        ])
+    }
+}
+
+impl TV for ServiceInfo {
+    fn from_sx(s: &Sx) -> Option<Self> {
+        let f = rec(s, 5)?;
+        let is: Vec<String> = TV::from_sx(&f[4])?;
+        Some(ServiceInfo {
+            vendor: Cow::Owned(String::from_sx(&f[0])?),
+            product: Cow::Owned(String::from_sx(&f[1])?),
+            version: Cow::Owned(String::from_sx(&f[2])?),
+            url: Cow::Owned(String::from_sx(&f[3])?),
+            interfaces: is.into_iter().map(Cow::Owned).collect(),
+        })
+    }
+    fn to_sx(&self) -> Sx {
+        mkrec(vec![
+            sx::xs(&self.vendor),
+            sx::xs(&self.product),
+            sx::xs(&self.version),
+            sx::xs(&self.url),
+            self.interfaces.iter().map(|c| c.to_string()).collect::<Vec<String>>().to_sx(),
+        ])
+    }
+}
+
+impl TV for GetInterfaceDescriptionReply {
+    fn from_sx(s: &Sx) -> Option<Self> {
+        let f = rec(s, 1)?;
+        Some(GetInterfaceDescriptionReply { description: TV::from_sx(&f[0])? })
+    }
+    fn to_sx(&self) -> Sx {
+        mkrec(vec![self.description.to_sx()])
+    }
+}
+
+impl TV for GetInterfaceDescriptionArgs<'static> {
+    fn from_sx(s: &Sx) -> Option<Self> {
+        let f = rec(s, 1)?;
+        Some(GetInterfaceDescriptionArgs { interface: Cow::Owned(String::from_sx(&f[0])?) })
+    }
+    fn to_sx(&self) -> Sx {
+        mkrec(vec![sx::xs(&self.interface)])
+    }
+}
+
+// ---------------------------------------------------------------------------
+// raw JSON trees -> text (document order and duplicate keys preserved)
+
+pub fn raw_text(s: &Sx, out: &mut String) -> Option<()> {
+    match s {
+        Sx::Atom(a) => match a.as_str() {
+            "n" => out.push_str("null"),
+            "t" => out.push_str("true"),
+            "f" => out.push_str("false"),
+            _ => return None,
+        },
+        Sx::List(l) => {
+            let tag = l.first()?.as_atom()?;
+            match tag {
+                "i" => out.push_str(l.get(1)?.as_atom()?),
+                "d" => {
+                    let bits: u64 = l.get(1)?.as_atom()?.parse().ok()?;
+                    let n = serde_json::Number::from_f64(f64::from_bits(bits))?;
+                    out.push_str(&n.to_string());
+                }
+                "s" => out.push_str(&serde_json::to_string(&l.get(1)?.as_str()?).ok()?),
+                "a" => {
+                    out.push('[');
+                    for (i, x) in l[1..].iter().enumerate() {
+                        if i > 0 {
+                            out.push(',');
+                        }
+                        raw_text(x, out)?;
+                    }
+                    out.push(']');
+                }
+                "o" => {
+                    out.push('{');
+                    for (i, kv) in l[1..].iter().enumerate() {
+                        if i > 0 {
+                            out.push(',');
+                        }
+                        let kv = kv.as_list()?;
+                        out.push_str(&serde_json::to_string(&kv.first()?.as_str()?).ok()?);
+                        out.push(':');
+                        raw_text(kv.get(1)?, out)?;
+                    }
+                    out.push('}');
+                }
+                _ => return None,
+            }
+        }
+    }
+    Some(())
+}
+
+// ---------------------------------------------------------------------------
+// running the real code
+
+fn res_enc<T: TV + PartialEq>(orig: &T, r: Result<T, serde_json::Error>) -> Sx {
+    match r {
+        Err(_) => sx::atom("err"),
+        Ok(v) => sx::tagged("ok", vec![v.to_sx(), sx::boolean(&v == orig)]),
+    }
+}
+
+fn run_enc<T: TV + Serialize + DeserializeOwned + PartialEq>(v: &Sx) -> Sx {
+    let v = match T::from_sx(v) {
+        Some(v) => v,
+        None => return sx::atom("bad-case"),
+    };
+    let s = serde_json::to_string(&v);
+    let b = serde_json::to_vec(&v);
+    let val = serde_json::to_value(&v);
+    let (s, b, val) = match (s, b, val) {
+        (Ok(s), Ok(b), Ok(val)) => (s, b, val),
+        _ => return sx::tagged("obs", vec![sx::atom("enc-err")]),
+    };
+    let same = s.as_bytes() == &b[..];
+    let parse = |t: &[u8]| -> Sx {
+        match serde_json::from_slice::<Value>(t) {
+            Ok(v) => sx::json(&v),
+            Err(_) => sx::atom("err"),
+        }
+    };
+    let encs = sx::tagged("encs", vec![parse(s.as_bytes()), parse(&b), sx::json(&val)]);
+    // (text, value) per encoding
+    let texts: Vec<(Vec<u8>, Option<Value>)> = vec![
+        (s.clone().into_bytes(), serde_json::from_str::<Value>(&s).ok()),
+        (b.clone(), serde_json::from_slice::<Value>(&b).ok()),
+        (serde_json::to_vec(&val).unwrap_or_default(), Some(val.clone())),
+    ];
+    let mut rt = vec![];
+    for (text, value) in &texts {
+        let as_str = std::str::from_utf8(text).unwrap_or("");
+        rt.push(res_enc(&v, serde_json::from_str::<T>(as_str)));
+        rt.push(res_enc(&v, serde_json::from_slice::<T>(text)));
+        rt.push(match value {
+            Some(value) => res_enc(&v, serde_json::from_value::<T>(value.clone())),
+            None => sx::atom("err"),
+        });
+    }
+    let rt = if rt.iter().all(|x| x == &rt[0]) { sx::tagged("rt9", vec![rt[0].clone()]) } else { sx::tagged("rt", rt) };
+    sx::tagged("obs", vec![encs, sx::boolean(same), rt])
+}
+
+fn res_dec<T: TV + Serialize>(r: Result<T, serde_json::Error>) -> Sx {
+    match r {
+        Err(_) => sx::atom("err"),
+        Ok(v) => {
+            let re = match serde_json::to_value(&v) {
+                Ok(j) => sx::json(&j),
+                Err(_) => sx::atom("err"),
+            };
+            sx::tagged("ok", vec![v.to_sx(), re])
+        }
+    }
+}
+
+fn run_dec<T: TV + Serialize + DeserializeOwned>(raw: &Sx) -> Sx {
+    let mut text = String::new();
+    if raw_text(raw, &mut text).is_none() {
+        return sx::atom("bad-case");
+    }
+    let a = res_dec(serde_json::from_str::<T>(&text));
+    let b = res_dec(serde_json::from_slice::<T>(text.as_bytes()));
+    let c = match serde_json::from_str::<Value>(&text) {
+        Ok(v) => res_dec(serde_json::from_value::<T>(v)),
+        Err(_) => sx::atom("text-err"),
+    };
+    sx::tagged("obs", vec![a, b, c])
+}
+
+macro_rules! dispatch {
+    ($f:ident, $ty:expr, $arg:expr) => {
+        match $ty {
+            "req" => $f::<Request<'static>>($arg),
+            "reply" => $f::<Reply>($arg),
+            "info" => $f::<ServiceInfo>($arg),
+            "desc" => $f::<GetInterfaceDescriptionReply>($arg),
+            "descargs" => $f::<GetInterfaceDescriptionArgs<'static>>($arg),
+            "set" => $f::<StringHashSet>($arg),
+            "mapstr" => $f::<StringHashMap<String>>($arg),
+            "mapint" => $f::<StringHashMap<i64>>($arg),
+            "mapoptstr" => $f::<StringHashMap<Option<String>>>($arg),
+            "mapval" => $f::<StringHashMap<Value>>($arg),
+            "mapmapstr" => $f::<StringHashMap<StringHashMap<String>>>($arg),
+            "mapset" => $f::<StringHashMap<StringHashSet>>($arg),
+            _ => sx::atom("bad-type"),
+        }
+    };
+}
+
+// ---------------------------------------------------------------------------
+// generators
+
+const STRS: &[&str] = &[
+    "", "a", "b", "org.example.Method", "org.varlink.service.GetInfo", "é", "日本語", "\"", "\\", "\n", "\u{0}",
+    "\u{1}", "a\"b\\c", "/", "\u{7f}", "😀", "\u{2028}", "\u{fffd}", " ", "null", "{}", "more", "parameters",
+    "method", "x y", "\t\r", "ß", "\u{10ffff}", "A", "Z", "aa", "ab",
+];
+
+const FLOATS: &[f64] = &[
+    0.0, -0.0, 1.0, -1.0, 1.5, 0.1, std::f64::consts::PI, 1e300, -1e300, 5e-324, 2.2250738585072014e-308,
+    1.7976931348623157e308, 9007199254740993.0, 1e21, 1e-7, 123456789.125,
+];
+
+const INTS: &[i128] = &[
+    0, 1, -1, 2, 42, -42, 9223372036854775807, -9223372036854775808, 9223372036854775808, 18446744073709551615,
+    4294967296, -4294967297, 9007199254740993,
+];
+
+fn gstr(r: &mut Rng) -> String {
+    if r.chance(1, 8) {
+        let n = r.range(2, 6);
+        let mut s = String::new();
+        for _ in 0..n {
+            s.push_str(*r.pick(STRS));
+        }
+        s
+    } else {
+        r.pick(STRS).to_string()
+    }
+}
+
+fn jnum_f(f: f64) -> Sx {
+    sx::list(vec![sx::atom("d"), sx::atom(format!("{}", f.to_bits()))])
+}
+
+/// a JSON value as Sx, keys sorted and distinct (a serde_json::Value)
+fn gjson(r: &mut Rng, depth: usize) -> Sx {
+    let top = if depth == 0 { 6 } else { 8 };
+    match r.below(top) {
+        0 => sx::atom("n"),
+        1 => sx::atom(if r.chance(1, 2) { "t" } else { "f" }),
+        2 => sx::list(vec![sx::atom("i"), sx::atom(format!("{}", r.pick(INTS)))]),
+        3 => {
+            if r.chance(1, 4) {
+                // random finite bits
+                loop {
+                    let f = f64::from_bits(r.next());
+                    if f.is_finite() {
+                        return jnum_f(f);
+                    }
+                }
+            }
+            jnum_f(*r.pick(FLOATS))
+        }
+        4 | 5 => sx::list(vec![sx::atom("s"), sx::xs(&gstr(r))]),
+        6 => {
+            let n = r.below(4);
+            let mut l = vec![sx::atom("a")];
+            for _ in 0..n {
+                l.push(gjson(r, depth - 1));
+            }
+            sx::list(l)
+        }
+        _ => {
+            let n = r.below(4);
+            let mut keys: Vec<String> = (0..n).map(|_| gstr(r)).collect();
+            keys.sort_by(|a, b| a.as_bytes().cmp(b.as_bytes()));
+            keys.dedup();
+            let mut l = vec![sx::atom("o")];
+            for k in keys {
+                l.push(sx::list(vec![sx::xs(&k), gjson(r, depth - 1)]));
+            }
+            sx::list(l)
+        }
+    }
+}
+
+fn gopt<F: FnMut(&mut Rng) -> Sx>(r: &mut Rng, mut f: F) -> Sx {
+    if r.chance(1, 3) {
+        sx::atom("-")
+    } else {
+        sx::list(vec![sx::atom("some"), f(r)])
+    }
+}
+
+fn gbool(r: &mut Rng) -> Sx {
+    sx::boolean(r.chance(1, 2))
+}
+
+fn gparams(r: &mut Rng) -> Sx {
+    // absent / null / scalar / nested
+    match r.below(8) {
+        0 | 1 => sx::atom("-"),
+        2 => sx::list(vec![sx::atom("some"), sx::list(vec![sx::atom("j"), sx::atom("n")])]),
+        3 => sx::list(vec![sx::atom("some"), sx::list(vec![sx::atom("j"), gjson(r, 0)])]),
+        _ => sx::list(vec![sx::atom("some"), sx::list(vec![sx::atom("j"), gjson(r, 3)])]),
+    }
+}
+
+fn gkeys(r: &mut Rng, k: usize) -> Vec<String> {
+    let n = r.below(k + 1);
+    let mut keys: Vec<String> = (0..n).map(|_| gstr(r)).collect();
+    keys.sort_by(|a, b| a.as_bytes().cmp(b.as_bytes()));
+    keys.dedup();
+    keys
+}
+
+fn gmap<F: FnMut(&mut Rng) -> Sx>(r: &mut Rng, k: usize, mut f: F) -> Sx {
+    let mut l = vec![sx::atom("m")];
+    for key in gkeys(r, k) {
+        l.push(sx::list(vec![sx::xs(&key), f(r)]));
+    }
+    sx::list(l)
+}
+
+fn gset(r: &mut Rng, k: usize) -> Sx {
+    let mut l = vec![sx::atom("S")];
+    for key in gkeys(r, k) {
+        l.push(sx::xs(&key));
+    }
+    sx::list(l)
+}
+
+pub const TYPES: &[&str] = &[
+    "req", "reply", "info", "desc", "descargs", "set", "mapstr", "mapint", "mapoptstr", "mapval", "mapmapstr",
+    "mapset",
+];
+
+fn gval(r: &mut Rng, ty: &str) -> Sx {
+    let k = 6;
+    match ty {
+        "req" => mkrec(vec![gopt(r, gbool), gopt(r, gbool), gopt(r, gbool), sx::xs(&gstr(r)), gparams(r)]),
+        "reply" => mkrec(vec![gopt(r, gbool), gopt(r, |r| sx::xs(&gstr(r))), gparams(r)]),
+        "info" => {
+            let n = r.below(4);
+            let mut is = vec![sx::atom("l")];
+            for _ in 0..n {
+                is.push(sx::xs(&gstr(r)));
+            }
+            mkrec(vec![sx::xs(&gstr(r)), sx::xs(&gstr(r)), sx::xs(&gstr(r)), sx::xs(&gstr(r)), sx::list(is)])
+        }
+        "desc" => mkrec(vec![gopt(r, |r| sx::xs(&gstr(r)))]),
+        "descargs" => mkrec(vec![sx::xs(&gstr(r))]),
+        "set" => gset(r, k),
+        "mapstr" => gmap(r, k, |r| sx::xs(&gstr(r))),
+        "mapint" => gmap(r, k, |r| {
+            let i = *r.pick(&[0i64, 1, -1, 7, i64::MAX, i64::MIN, 1 << 40]);
+            sx::list(vec![sx::atom("i"), sx::int(i)])
+        }),
+        "mapoptstr" => gmap(r, k, |r| gopt(r, |r| sx::xs(&gstr(r)))),
+        "mapval" => gmap(r, k, |r| sx::list(vec![sx::atom("j"), gjson(r, 2)])),
+        "mapmapstr" => gmap(r, 4, |r| gmap(r, 3, |r| sx::xs(&gstr(r)))),
+        "mapset" => gmap(r, 4, |r| gset(r, 3)),
+        _ => sx::atom("-"),
+    }
+}
+
+/// the real encoding of a typed value as a raw tree (document order = sorted)
+fn real_encoding(ty: &str, v: &Sx) -> Option<Sx> {
+    fn enc<T: TV + Serialize>(v: &Sx) -> Sx {
+        match T::from_sx(v).and_then(|v| serde_json::to_value(&v).ok()) {
+            Some(j) => sx::json(&j),
+            None => sx::atom("n"),
+        }
+    }
+    fn wrap<T: TV + Serialize + DeserializeOwned>(v: &Sx) -> Sx {
+        enc::<T>(v)
+    }
+    Some(dispatch!(wrap, ty, v))
+}
+
+fn junk(r: &mut Rng) -> Sx {
+    gjson(r, 1)
+}
+
+fn obj_entries(s: &Sx) -> Option<Vec<Sx>> {
+    let l = s.as_list()?;
+    if l.first()?.as_atom()? == "o" {
+        Some(l[1..].to_vec())
+    } else {
+        None
+    }
+}
+
+fn mkobj(entries: Vec<Sx>) -> Sx {
+    sx::tagged("o", entries)
+}
+
+fn known_members(ty: &str) -> &'static [&'static str] {
+    match ty {
+        "req" => &["more", "oneway", "upgrade", "method", "parameters"],
+        "reply" => &["continues", "error", "parameters"],
+        "info" => &["vendor", "product", "version", "url", "interfaces"],
+        "desc" => &["description"],
+        "descargs" => &["interface"],
+        _ => &[],
+    }
+}
+
+fn shuffle<T>(r: &mut Rng, v: &mut Vec<T>) {
+    for i in (1..v.len()).rev() {
+        let j = r.below(i + 1);
+        v.swap(i, j);
+    }
+}
+
+/// one mutation of a raw tree that is a valid encoding; returns (tree, tag)
+fn mutate(r: &mut Rng, ty: &str, tree: &Sx) -> (Sx, &'static str) {
+    let known = known_members(ty);
+    let entries = obj_entries(tree);
+    let Some(mut es) = entries else {
+        return (junk(r), "junk");
+    };
+    let is_struct = !known.is_empty();
+    match r.below(12) {
+        0 => {
+            // extra (unknown for structs) member, possibly duplicated
+            let k = if is_struct { format!("x{}", r.below(3)) } else { gstr(r) };
+            es.push(sx::list(vec![sx::xs(&k), junk(r)]));
+            if r.chance(1, 3) {
+                es.push(sx::list(vec![sx::xs(&k), junk(r)]));
+            }
+            shuffle(r, &mut es);
+            (mkobj(es), "extra-member")
+        }
+        1 if is_struct => {
+            // a known member set to null (present or not before)
+            let k = *r.pick(known);
+            es.retain(|e| e.as_list().and_then(|e| e[0].as_str()).as_deref() != Some(k));
+            es.push(sx::list(vec![sx::xs(k), sx::atom("n")]));
+            shuffle(r, &mut es);
+            (mkobj(es), "null-member")
+        }
+        2 if !es.is_empty() => {
+            // member value replaced by a value of some other JSON type
+            let i = r.below(es.len());
+            let k = es[i].as_list().unwrap()[0].clone();
+            es[i] = sx::list(vec![k, junk(r)]);
+            (mkobj(es), "retyped-member")
+        }
+        3 if !es.is_empty() => {
+            let i = r.below(es.len());
+            es.remove(i);
+            (mkobj(es), "removed-member")
+        }
+        4 if !es.is_empty() => {
+            // duplicate an existing member (same or other value)
+            let i = r.below(es.len());
+            let mut e = es[i].clone();
+            if r.chance(1, 2) {
+                let k = e.as_list().unwrap()[0].clone();
+                e = sx::list(vec![k, junk(r)]);
+            }
+            if r.chance(1, 2) {
+                es.push(e);
+            } else {
+                es.insert(0, e);
+            }
+            (mkobj(es), "duplicate-member")
+        }
+        5 if is_struct => {
+            // array form: members in declaration order, null for absent ones
+            let mut l = vec![sx::atom("a")];
+            for k in known {
+                let v = es
+                    .iter()
+                    .find(|e| e.as_list().and_then(|e| e[0].as_str()).as_deref() == Some(*k))
+                    .map(|e| e.as_list().unwrap()[1].clone())
+                    .unwrap_or(sx::atom("n"));
+                l.push(v);
+            }
+            match r.below(4) {
+                0 => {
+                    l.pop();
+                }
+                1 => l.push(junk(r)),
+                _ => {}
+            }
+            (sx::list(l), "array-form")
+        }
+        6 => {
+            shuffle(r, &mut es);
+            (mkobj(es), "reordered")
+        }
+        7 => (junk(r), "junk"),
+        9 => (tree.clone(), "valid-unchanged"),
+        8 if ty == "set" || ty == "mapset" || ty == "mapmapstr" || ty == "mapval" => {
+            // member values of every JSON type
+            let k = gstr(r);
+            let v = match r.below(9) {
+                0 => sx::atom("n"),
+                1 => sx::atom("t"),
+                2 => sx::list(vec![sx::atom("i"), sx::atom("5")]),
+                3 => jnum_f(1.5),
+                4 => sx::list(vec![sx::atom("s"), sx::xs("s")]),
+                5 => sx::tagged("a", vec![]),
+                6 => sx::tagged("a", vec![sx::tagged("o", vec![])]),
+                7 => sx::tagged("o", vec![sx::list(vec![sx::xs("x"), junk(r)])]),
+                _ => sx::tagged("o", vec![]),
+            };
+            es.push(sx::list(vec![sx::xs(&k), v]));
+            shuffle(r, &mut es);
+            (mkobj(es), "member-of-any-type")
+        }
+        _ => (tree.clone(), "valid"),
+    }
+}
+
+/// all `(d <bits>)` nodes of a case
+fn collect_floats(s: &Sx, out: &mut Vec<u64>) {
+    if let Sx::List(l) = s {
+        if l.len() == 2 && l[0].as_atom() == Some("d") {
+            if let Some(b) = l[1].as_atom().and_then(|a| a.parse::<u64>().ok()) {
+                out.push(b);
+                return;
+            }
+        }
+        for x in l {
+            collect_floats(x, out);
+        }
+    }
+}
+
+/// serde_json's text layer on one f64: print, parse back
+pub fn float_text_roundtrip(bits: u64) -> u64 {
+    let f = f64::from_bits(bits);
+    match serde_json::to_string(&f).ok().and_then(|t| serde_json::from_str::<f64>(&t).ok()) {
+        Some(g) => g.to_bits(),
+        None => bits,
+    }
+}
+
+/// the `(fl ...)` component of a case: measured with the real serde_json
+pub fn float_table(case_body: &Sx) -> Sx {
+    let mut fs = Vec::new();
+    collect_floats(case_body, &mut fs);
+    fs.sort();
+    fs.dedup();
+    let mut l = vec![sx::atom("fl")];
+    for b in fs {
+        let b2 = float_text_roundtrip(b);
+        if b2 != b {
+            l.push(sx::list(vec![sx::atom(format!("{}", b)), sx::atom(format!("{}", b2))]));
+        }
+    }
+    sx::list(l)
+}
+
+/// (kind ty body [fl]) -> (kind ty body fl) with a freshly measured table
+fn with_table(case: &Sx) -> Sx {
+    match case.as_list() {
+        Some(l) if l.len() >= 3 => sx::list(vec![l[0].clone(), l[1].clone(), l[2].clone(), float_table(&l[2])]),
+        _ => case.clone(),
+    }
+}
+
+fn corpus(name: &str) -> Vec<Sx> {
+    let p = format!("{}/corpus/{}.txt", env!("CARGO_MANIFEST_DIR"), name);
+    std::fs::read_to_string(p)
+        .unwrap_or_default()
+        .lines()
+        .filter(|l| l.trim_start().starts_with('('))
+        .filter_map(sx::parse)
+        .collect()
+}
+
+impl Suite for SerdeSuite {
+    fn generate(&self, ctx: &Ctx) -> Vec<Case> {
+        let mut out: Vec<Case> = corpus("serde")
+            .into_iter()
+            .map(|input| Case { input: with_table(&input), tags: vec!["corpus".into()] })
+            .collect();
+        let mut r = Rng::new(ctx.seed);
+        let (n_enc, n_dec) = if ctx.thorough { (30000, 40000) } else { (3000, 4000) };
+        for i in 0..n_enc {
+            let ty = TYPES[i % TYPES.len()];
+            let v = gval(&mut r, ty);
+            let input = with_table(&sx::tagged("enc", vec![sx::atom(ty), v]));
+            let mut tags = vec!["enc".to_string(), format!("enc:{}", ty)];
+            if input.as_list().map(|l| l[3].as_list().map(|f| f.len() > 1).unwrap_or(false)).unwrap_or(false) {
+                tags.push("float-text-inexact".into());
+            }
+            out.push(Case { input, tags });
+        }
+        for i in 0..n_dec {
+            let ty = TYPES[i % TYPES.len()];
+            let v = gval(&mut r, ty);
+            let tree = real_encoding(ty, &v).unwrap_or(sx::atom("n"));
+            let (mut t, mut tag) = mutate(&mut r, ty, &tree);
+            // most mutations apply to some types only: retry a few times before settling for `valid`
+            for _ in 0..6 {
+                if tag != "valid" {
+                    break;
+                }
+                let (t1, tag1) = mutate(&mut r, ty, &tree);
+                t = t1;
+                tag = tag1;
+            }
+            let mut tags = vec!["dec".to_string(), format!("dec:{}", ty)];
+            if r.chance(1, 4) {
+                let (t2, tag2) = mutate(&mut r, ty, &t);
+                tags.push(format!("mut:{}", tag));
+                t = t2;
+                tag = tag2;
+            }
+            tags.push(format!("mut:{}", tag));
+            out.push(Case { input: with_table(&sx::tagged("dec", vec![sx::atom(ty), t])), tags });
+        }
+        out
+    }
+
+    fn run(&self, _ctx: &Ctx, input: &Sx) -> Sx {
+        let l = match input.as_list() {
+            Some(l) if l.len() == 3 || l.len() == 4 => l,
+            _ => return sx::atom("bad-case"),
+        };
+        let kind = l[0].as_atom().unwrap_or("");
+        let ty = l[1].as_atom().unwrap_or("");
+        match kind {
+            "enc" => dispatch!(run_enc, ty, &l[2]),
+            "dec" => dispatch!(run_dec, ty, &l[2]),
+            _ => sx::atom("bad-case"),
+        }
     }
 }
